@@ -339,6 +339,9 @@ def units(tier):
                 out.append(("recv", (size, avail, waitall, False), 3 if quick else 4))
                 if waitall:
                     out.append(("recv", (size, avail, waitall, "blocking"), 3 if quick else 4))
+    for n in [60001, 120001]:
+        # more than one 60000-byte block: partial writes in the first blocks
+        out.append(("send", (n, False, "bytes"), 3))
     for n in [0, 1, 2, 3, 7, 64]:
         out.append(("send", (n, True, "bytes"), 2))
         for ty in ("bytes", "bytearray", "memoryview"):
